@@ -617,6 +617,9 @@ class Subscription(BaseSubscription):
                     subwhere.append(
                         f"id IN (SELECT id FROM tags WHERE name = '{tagname}' AND value IN ({pstr})) "
                     )
+                else:
+                    # no usable value: the member matches nothing (like ids/authors/kinds)
+                    raise ValueError("tags")
         return filter_obj
 
     def build_query(self, filters):
